@@ -2,6 +2,8 @@
 // votca::csg::Topology boundary-condition entry points and prints what it observes.
 //   box <auto|tric|ortho|open> m00 m01 m02 m10 m11 m12 m20 m21 m22   (row major; columns = box vectors)
 //        -> Topology::setBox(m, type);  prints getBoxType(), BoxVolume(), getBox()
+//   newtop -> a fresh Topology (two beads);  setbox <type> <9 reals> -> setBox on the CURRENT
+//        Topology (histories of setBox calls on one object);  box = newtop + setbox
 //   short -> Topology::ShortestBoxSize()
 //   pair x1 y1 z1 x2 y2 z2
 //        -> f = BCShortestConnection(p1,p2), b = BCShortestConnection(p2,p1),
@@ -47,7 +49,13 @@ int main() {
     in >> cmd;
     std::cout << "cmd " << seq << " " << line << std::endl;
     try {
-      if (cmd == "box") {
+      if (cmd == "newtop") {
+        top.reset(new Topology());
+        top->RegisterBeadType("A");
+        b0 = top->CreateBead(Bead::spherical, "a0", "A", 0, 1.0, 0.0);
+        b1 = top->CreateBead(Bead::spherical, "a1", "A", 0, 1.0, 0.0);
+        std::cout << "ok" << std::endl;
+      } else if (cmd == "box" || cmd == "setbox") {
         std::string req;
         in >> req;
         Eigen::Matrix3d m;
@@ -64,10 +72,12 @@ int main() {
           t = BoundaryCondition::typeOpen;
         else
           throw std::runtime_error("driver: unknown box type " + req);
-        top.reset(new Topology());
-        top->RegisterBeadType("A");
-        b0 = top->CreateBead(Bead::spherical, "a0", "A", 0, 1.0, 0.0);
-        b1 = top->CreateBead(Bead::spherical, "a1", "A", 0, 1.0, 0.0);
+        if (cmd == "box" || !top) {
+          top.reset(new Topology());
+          top->RegisterBeadType("A");
+          b0 = top->CreateBead(Bead::spherical, "a0", "A", 0, 1.0, 0.0);
+          b1 = top->CreateBead(Bead::spherical, "a1", "A", 0, 1.0, 0.0);
+        }
         if (req == "auto")
           top->setBox(m);  // default argument = typeAuto
         else
